@@ -269,10 +269,9 @@ def check_quit(program, rep):
     sl = program.cls('SimpleLoop')
     allowed = {'Quit', 'SwitchWorld'}
     n_h = 0
-    for c, nm in ((lp, 'start'), (sl, 'start'), (sl, 'loop')):
-        f = c.methods.get(nm)
-        if f is None:
-            continue
+    quit_handlers = 0
+    for c, f in [(c, f) for c in [lp] + program.subclasses(lp)
+                 for f in c.methods.values()]:
         for h in [n for n in ast.walk(f.node)
                   if isinstance(n, ast.ExceptHandler)]:
             n_h += 1
@@ -288,16 +287,7 @@ def check_quit(program, rep):
                       'other exceptions no longer propagate to the caller of '
                       'start()', line=h.lineno)
             if 'Quit' in names:
-                sets = {norm(t): norm(a.value) for a in ast.walk(h)
-                        if isinstance(a, ast.Assign) for t in a.targets}
-                ok = sets.get('self.running') == 'False' and not any(
-                    k.startswith('self._current_world') for k in sets)
-                rep.check(ok, 'C14.quit', f.where, 'except Quit: ...',
-                          'Quit sets running false and leaves the current '
-                          'world and handle alone',
-                          'the Quit handler does not set running = False, or '
-                          'it changes the current world / handle',
-                          line=h.lineno)
+                quit_handlers += 1
         for t in [n for n in ast.walk(f.node) if isinstance(n, ast.Try)]:
             if t.finalbody and any(isinstance(x, (ast.Return, ast.Raise))
                                    for s in t.finalbody for x in ast.walk(s)):
@@ -306,6 +296,39 @@ def check_quit(program, rep):
                         'other exceptions', line=t.lineno)
     rep.floor('C14.quit', 'exception handlers in start/loop', n_h, 2)
     f = lp.methods['start']
+    # paths of start() on which Quit was caught: running ends false, world
+    # and handle are left alone (the handler may live in a private helper)
+    wq = Walker(program, _D(program, exc=True))
+    n_q = 0
+    badq = None
+    for ex in wq.run(f, lp):
+        if ex.kind == 'raise':
+            continue
+        tr = ex.state.trace
+        iq = [i for i, e in enumerate(tr) if e.kind == 'except' and 'Quit' in
+              (norm(e.node.type) if e.node.type is not None else '')]
+        if not iq:
+            continue
+        n_q += 1
+        after = tr[iq[-1]:]
+        run_stores = [norm(e.sym.node) for e in after if e.kind == 'store'
+                      and e.target is not None
+                      and e.target.text == 'self.running']
+        touched = [e for e in after if e.kind == 'store' and e.target
+                   is not None and e.target.text.startswith(
+                       'self._current_world')]
+        if not run_stores or run_stores[-1] != 'False' or touched:
+            badq = tr[iq[-1]].node
+    if quit_handlers and n_q == 0:
+        rep.inconclusive('C14.quit', f.where, 'except Quit',
+                         'no path of start() passes through the Quit handler')
+    else:
+        rep.check(badq is None, 'C14.quit', f.where,
+                  'except Quit: ...', 'Quit sets running false and leaves '
+                  'the current world and handle alone',
+                  'a path on which Quit was caught returns from start() '
+                  'without running = False, or changes the current world / '
+                  'handle', line=getattr(badq, 'lineno', f.node.lineno))
     w = Walker(program, _D(program))
     exits = w.run(f, lp)
     bad = None
